@@ -17,7 +17,7 @@ cp "$HERE/known-findings.txt" "$W/home/" 2>/dev/null
 (cd "$W/mut" && go build ./... ) || { echo "$NAME: does not build"; exit 3; }
 suite=pass; (cd "$W/mut" && go test -vet=off -count=1 ./... >"$W/suite.log" 2>&1) || suite=FAIL
 demos=$(cd "$SRC" && ls *_test.go)
-for f in $demos; do cp "$SRC/$f" "$W/mut/$PKG/zz_$f"; cp "$SRC/$f" "$W/clean/$PKG/zz_$f"; done
+mkdir -p "$W/mut/$PKG" "$W/clean/$PKG"; for f in $demos; do cp "$SRC/$f" "$W/mut/$PKG/zz_$f"; cp "$SRC/$f" "$W/clean/$PKG/zz_$f"; done
 demo_mut=pass; (cd "$W/mut" && go test -vet=off -count=1 ${SEED_RACE:+-race} -run "$RUN" ./$PKG/ >"$W/demo_mut.log" 2>&1) || demo_mut=FAIL
 demo_clean=pass; (cd "$W/clean" && go test -vet=off -count=1 ${SEED_RACE:+-race} -run "$RUN" ./$PKG/ >"$W/demo_clean.log" 2>&1) || demo_clean=FAIL
 for f in $demos; do rm -f "$W/mut/$PKG/zz_$f"; done
